@@ -5,6 +5,7 @@ import (
 	"fmt"
 	"os"
 	"strings"
+	"sync"
 
 	"github.com/ansible/receptor/pkg/logger"
 	"github.com/ansible/receptor/pkg/verifhook"
@@ -23,6 +24,10 @@ var reloadParseAndRun = func(toRun []string) error {
 }
 
 var cfgNotReloadable = make(map[string]bool)
+
+// reloadLock makes reload commands of different control sessions run one after the other: they share
+// cfgNotReloadable and the node's list of backends and wait group.
+var reloadLock sync.Mutex
 
 var reloadableActions = []string{
 	"tcp-peer",
@@ -167,6 +172,8 @@ func handleError(err error, errorcode int, logger *logger.ReceptorLogger) (map[s
 }
 
 func (c *ReloadCommand) ControlFunc(_ context.Context, nc NetceptorForControlCommand, _ ControlFuncOperations) (map[string]interface{}, error) {
+	reloadLock.Lock()
+	defer reloadLock.Unlock()
 	// Reload command stops all backends, and re-runs the ParseAndRun() on the
 	// initial config file
 	nc.GetLogger().Debug("Reloading")
